@@ -35,7 +35,11 @@ class MPEOutputDevice (MidiOutputDevice):
         super().__init__(device_name, send_clock, virtual)
 
         self.channels = list(range(1, 16))
-        self.note_assignments = dict((n, MPENote) for n in range(128))
+        #--------------------------------------------------------------------------------
+        # A pitch can be held by several notes at once (a unison, a doubled chord note):
+        # each has a channel of its own, so keep every sounding note, most recent last.
+        #--------------------------------------------------------------------------------
+        self.note_assignments: dict[int, list[MPENote]] = dict((n, []) for n in range(128))
         self.channel_assignments: dict[int, MPENote] = dict((n, None) for n in self.channels)
     
     def _get_next_channel(self) -> Optional[int]:
@@ -62,19 +66,26 @@ class MPEOutputDevice (MidiOutputDevice):
                            channel=channel,
                            output_device=self)
             
-            self.note_assignments[note_index] = note
+            self.note_assignments[note_index].append(note)
             self.channel_assignments[channel] = note
 
             super().note_on(note_index, velocity, channel)
             return note
     
     def note_off(self,
-                 note_index: int):
-        note = self.note_assignments[note_index]
-        if note is None:
+                 note_index: int,
+                 note: Optional[MPENote] = None):
+        """
+        Release a note. If `note` (an MPENote returned by note_on) is given, that note is
+        released; otherwise the most recently struck note of this pitch that still sounds.
+        """
+        held = self.note_assignments[note_index]
+        if note is None and held:
+            note = held[-1]
+        if note is None or not any(other is note for other in held):
             raise ValueError("MPE: note_off received for non-depressed note (%d)" % note_index)
         else:
             super().note_off(note_index, note.channel)
             self.channel_assignments[note.channel] = None
-            self.note_assignments[note_index] = None
+            self.note_assignments[note_index] = [other for other in held if other is not note]
             note.is_down = False
